@@ -24,10 +24,17 @@ import (
 )
 
 func main() {
-	dst := []byte("verif-plain-main-dst")
-	fmt.Println(secp256k1.HashToGroup([]byte("m"), dst).Hex())
-	fmt.Println(secp256k1.EncodeToGroup([]byte("m"), dst).Hex())
-	fmt.Println(secp256k1.HashToScalar([]byte("m"), dst).Hex())
+	for _, n := range []int{20, 1, 300} {
+		dst := make([]byte, n)
+		for i := range dst {
+			dst[i] = byte('a' + i%26)
+		}
+		for _, msg := range [][]byte{[]byte("m"), nil, make([]byte, 31)} {
+			fmt.Println(secp256k1.HashToGroup(msg, dst).Hex())
+			fmt.Println(secp256k1.EncodeToGroup(msg, dst).Hex())
+			fmt.Println(secp256k1.HashToScalar(msg, dst).Hex())
+		}
+	}
 }
 '''
 
@@ -120,6 +127,9 @@ def run(tier, seed):
     plats = PLATFORMS if tier == 'thorough' else PLATFORMS[:4]
     for pi, env in enumerate(plats):
         jobs = [{'id': 'reg%d_p%d' % (f, pi), 'harness': 'vh_hash', 'args': [f, 3, 16, 0], 'summaries': KS, 'hashmode': 'registry'} for f in (FN if pi == 0 else [2])]
+        if pi == 0:
+            # every code path that may ask for a hash: oversize DST (pre-hash), short DST, empty message
+            jobs += [{'id': 'reg%d_p%d_%d_%d' % (f, pi, m, d), 'harness': 'vh_hash', 'args': [f, m, d, 0], 'summaries': KS, 'hashmode': 'registry'} for f in FN for (m, d) in ((3, 300), (0, 1))]
         rs = ck.absorb(core.symx(HARNESS, jobs, env=env))
         for r in rs:
             r.platform = ' '.join(env) or 'host'
@@ -129,7 +139,7 @@ def run(tier, seed):
     ck.trusted = ['go/ssa + symx translation', 'SMT solvers', 'the Go linker links exactly the import closure; crypto.RegisterHash calls happen in init functions with constant hash identifiers',
                   'a registered constructor returns a working hash.Hash (stub)']
     ck.assumptions = ['the rest of the program is arbitrary: it may or may not register SHA-256']
-    ck.bounds = {'programs': 'all, abstracted to the Boolean other_package_registers_sha256', 'calls': 'HashToGroup, EncodeToGroup, HashToScalar on a 3-byte message and 16-byte DST (hash availability does not depend on contents)'}
+    ck.bounds = {'programs': 'all, abstracted to the Booleans other_package_registers_sha256 / other_package_overrides_sha256', 'calls': 'HashToGroup, EncodeToGroup, HashToScalar with (|msg|,|dst|) in (3,16), (3,300: oversize pre-hash path), (0,1)'}
     ck.extra['explanation'] = 'configuration quantifier turned into a solver variable; registry of the package\'s own import closure: %s' % (runs[0].d.get('registry') or 'no RegisterHash call found')
     ck.bounds['build configurations'] = [' '.join(e) or 'host (linux/amd64)' for e in plats]
     bad = None
